@@ -381,3 +381,10 @@ mutant("c11-purge-leading-real-twice", "C11", "R11.7/Polynomial::purge_leading/k
 IM = "src/integrate/mod.rs"
 mutant("c09-simpson-accept-real-part", "C09", "R9.", (IM, "        if (s1 + s2 - v_7).abs() < v_6 {", "        if (s1 + s2 - v_7).real().abs() < v_6 {"))
 mutant("c09-de-delta-real-part", "C09", "R9.", (IM, "        current_delta = (half * integral - new_contribution).abs();", "        current_delta = (half * integral - new_contribution).real().abs();"))
+
+# ---- seed round 10
+mutant("c14-quadratic-denominator-real-doubled", "C14", "R14.1/Polynomial::roots/quadratic:complex-leading-coefficient",
+       (PM, "                let leading = Complex::<N::RealField>::new(leading.real(), leading.imaginary());\n                let leading = leading\n                    * Complex::<N::RealField>::new(\n                        N::from_f64(2.0).unwrap().real(),\n                        N::zero().real(),\n                    );\n",
+        "                let two = N::from_f64(2.0).unwrap().real();\n                let leading =\n                    Complex::<N::RealField>::new(two * leading.real(), leading.imaginary());\n"))
+SP = "src/special/polynomial/mod.rs"
+mutant("c18-laguerre-factorial-closed-form", "C18", "R18.5/special::polynomial::laguerre/range", (SP, "            choose::<N>(n, k) / factorial::<N>(k) * if k % 2 == 0 { N::one() } else { -N::one() },", "            factorial::<N>(n) / (factorial::<N>(k) * factorial::<N>(k) * factorial::<N>(n - k)) * if k % 2 == 0 { N::one() } else { -N::one() },"))
